@@ -145,7 +145,14 @@ def map_arrays(arrays=None, func=np.asarray, *, xp=np, **kwargs):
     def _apply(value):
         if isscalar(value):
             return value
-        return func(value)
+        arr = func(value)
+        kind, size = getattr(getattr(arr, "dtype", None), "kind", ""), getattr(arr, "itemsize", 0)
+        if kind == "f" and size < 8:
+            # low-precision parameter maps: compute in double precision
+            arr = arr.astype(np.float64)
+        elif kind == "c" and size < 16:
+            arr = arr.astype(np.complex128)
+        return arr
 
     arrays = kwargs if arrays is None else arrays
     if isinstance(arrays, (list, tuple)):
